@@ -241,15 +241,37 @@ def run_reader(ctx, q, lines, n, conchar, fixed=True):
     return list(v.items), consumed
 
 
-def comma_lines(name, shape, lead=","):
+def comma_lines(name, shape, lead=",", short=False, marker=""):
+    """the comma-separated form of a card: 8 data fields per line; `lead` starts a continuation line (its first field is the continuation
+    field), `short` leaves out the trailing blank fields of a line, `marker` puts a continuation field (10th field) on full lines"""
     out = []
-    for k in range(0, max(len(shape), 1), 8):
-        parts = [Lit(name if k == 0 else lead.rstrip(","))]
+    starts = list(range(0, max(len(shape), 1), 8))
+    for k in starts:
+        toks = []
         for i in range(k, min(k + 8, len(shape))):
+            toks.append(None if shape[i] == "blank" else StrOf(FIELD(i, shape[i])))
+        if short:
+            while toks and toks[-1] is None:
+                toks.pop()
+        parts = [Lit(name if k == 0 else lead.rstrip(","))]
+        for t in toks:
             parts.append(Lit(","))
-            if shape[i] != "blank":
-                parts.append(StrOf(FIELD(i, shape[i])))
+            if t is not None:
+                parts.append(t)
+        if marker and len(toks) == 8 and k != starts[-1]:
+            parts.append(Lit("," + marker))
         out.append(cat(*parts))
+    return out
+
+
+def blank_heads(lines):
+    """the same small-field card with blank continuation fields instead of '+'"""
+    out = []
+    for k, ln in enumerate(lines):
+        a = atoms(ln)
+        if k and a and isinstance(a[0][0], Lit) and a[0][0].s[:8] == "+       ":
+            ln = cat(Lit(" " * 8 + a[0][0].s[8:]), *[x for x, _ in a[1:]])
+        out.append(ln)
     return out
 
 
@@ -283,15 +305,18 @@ def rdcards_dispatch(ctx):
     loops = [n for n in ast.walk(fn) if isinstance(n, ast.While) and any(isinstance(c, ast.Call) and dotted(c.func) == "_rdfixed" for c in ast.walk(n))]
     if len(loops) != 1:
         raise AnchorError("rdcards: the card loop calling _rdfixed")
-    line = None
+    lnames = sorted({n.id for n in ast.walk(loops[0].test) if isinstance(n, ast.Name)})
     eng = Engine(ctx, BULK, fn, env={}, lenient=True)
     st = eng.start_state()
+    for nm in lnames:
+        st.env[nm] = Param("<line>")          # the loop runs while there is a line: its test names the line variable
     try:
         res = eng.block(loops[0].body, st)
     except Unsupported as e:
         raise Unsupported(f"rdcards card loop: {e}")
     found = {}
     comma = set()
+    order = []
     for s2, out, pay in res:
         star = None
         for f in s2.facts:
@@ -303,11 +328,25 @@ def rdcards_dispatch(ctx):
             if pol is not None:
                 star = (f[1] == pol)
         for nm, args, kw, node in s2.effects:
+            if nm in ("_rdfixed", "_rdcomma") and args and len(args) >= 3:
+                args = _by_signature(ctx, nm, args, kw)
+                has_line = [any(n == Param("<line>") for n in walk_value(a)) for a in args[:2]]
+                if has_line != [False, True]:
+                    order.append(nm)
             if nm == "_rdfixed" and args and len(args) >= 4 and star is not None:
                 found.setdefault(star, set()).add((args[2], args[3]))
             if nm == "_rdcomma" and args and len(args) >= 3:
                 comma.add(args[2])
-    return found, comma, loops[0]
+    return found, comma, loops[0], order
+
+
+def _by_signature(ctx, name, args, kw):
+    names = [a.arg for a in ctx.src.func(BULK, name).args.args]
+    full = list(args) + [None] * max(0, len(names) - len(args))
+    for k, v in (kw or ()):
+        if k in names:
+            full[names.index(k)] = v
+    return full
 
 
 def _star_test(op, a, b):
@@ -335,7 +374,8 @@ def r3_card_grid(ctx):
     ctx.assume("C12-R3: a field value fits the column it is written into (integers of at most W digits, strings of at most W characters); "
                "names and string fields hold no '$', ',' or '*'")
     # ---- what the generic reader expects
-    found, comma, loop = rdcards_dispatch(ctx)
+    found, comma, loop, order = rdcards_dispatch(ctx)
+    ctx.check(not order, "rdcards: the readers receive the line iterator first and the current line second", loop, order or None)
     conch = {}
     for star, W in ((True, 16), (False, 8)):
         got = found.get(star, set())
@@ -385,18 +425,30 @@ def r3_card_grid(ctx):
             ok = trim(got, BLANK) == want
             ctx.check(ok, f"_rdfixed reads the {tag} card of {desc} back field for field ({len(lines)} lines)", rfn,
                       None if ok else _diff(got, want, used, len(lines)))
+            if W == 8 and len(lines) > 1 and " " in conch[8]:
+                try:
+                    got, used = run_reader(ctx, "_rdfixed", blank_heads(lines), W, conch[W], True)
+                    ok = trim(got, BLANK) == want
+                    ctx.check(ok, f"_rdfixed reads the {tag} card of {desc} alike when its continuation fields are blank", rfn,
+                              None if ok else _diff(got, want, used, len(lines)))
+                except Unsupported as e:
+                    ctx.error(f"_rdfixed on the {tag} card of {desc} with blank continuation fields: the reader is not modelled", rfn, str(e))
             if fmt == "format_double16":
                 continue
             cfn = ctx.src.func(BULK, "_rdcomma")
-            for lead in (",", "+,"):
-                cl = [cat(ln, Lit("\n")) for ln in comma_lines(name.rstrip("*"), shape, lead)]
+            if W != 8:
+                continue                # the comma form does not depend on the field width: once per shape
+            for lead, short, marker, how in ((",", False, "", "',' continuations"), ("+,", False, "", "'+,' continuations"),
+                                             (" ,", True, "", "' ,' continuations, trailing blank fields of a line left out"),
+                                             ("+C1,", False, "+C1", "continuation fields '+C1' at both ends")):
+                cl = [cat(ln, Lit("\n")) for ln in comma_lines(name.rstrip("*"), shape, lead, short, marker)]
                 try:
                     gotc, usedc = run_reader(ctx, "_rdcomma", cl, None, cch, False)
                 except Unsupported as e:
-                    ctx.error(f"_rdcomma on the comma form ({lead!r} continuations) of the card of {desc}: the reader is not modelled", cfn, str(e))
+                    ctx.error(f"_rdcomma on the comma form ({how}) of the card of {desc}: the reader is not modelled", cfn, str(e))
                     continue
                 ok = trim(gotc, BLANK) == want
-                ctx.check(ok, f"_rdcomma reads the comma form ({lead!r} continuations) of the {W}-wide card of {desc} like the fixed form", cfn,
+                ctx.check(ok, f"_rdcomma reads the comma form ({how}) of the card of {desc} like the fixed form", cfn,
                           None if ok else _diff(gotc, want, usedc, len(cl)))
 
 
